@@ -7,8 +7,8 @@ set -u
 VERIF="$(cd "$(dirname "${BASH_SOURCE[0]}")/.." && pwd)"
 ID="$(echo "${1:-}" | tr a-z A-Z)"
 case "$ID" in
-  C01) RUNS=2000000; MAXLEN=700 ;;
-  C02) RUNS=1000000; MAXLEN=700 ;;
+  C01) RUNS=400000; MAXLEN=700 ;;
+  C02) RUNS=300000; MAXLEN=700 ;;
   C03) RUNS=30000;   MAXLEN=900 ;;
   C04) RUNS=60000;   MAXLEN=900 ;;
   C05) RUNS=20000;   MAXLEN=500 ;;
@@ -20,7 +20,7 @@ case "$ID" in
   C12) RUNS=2000000; MAXLEN=64 ;;
   C14) RUNS=200000;  MAXLEN=2000 ;;
   C15) RUNS=400000;  MAXLEN=4000 ;;
-  C17) RUNS=1000000; MAXLEN=200 ;;
+  C17) RUNS=600000; MAXLEN=200 ;;
   *) exit 0 ;;
 esac
 RUNS="${VERIF_FUZZ_RUNS:-$RUNS}"
